@@ -186,3 +186,100 @@ func VerifC18Readers() {
 	}
 	verifCover("end")
 }
+
+func verifOneLine(got [][]byte, want string) bool { return len(got) == 1 && string(got[0]) == want }
+
+// VerifC18Concurrent: a dispatcher goroutine and an admin goroutine run at the same time; the interleaving
+// is a decision variable (the engine may switch goroutines before every lock / atomic / channel operation, up
+// to "preemptions" times). The admin goroutine makes TWO changes to two different lists (a rewriter or
+// blacklist entry is added, then a route is deleted), chosen so that a dispatch that combined the old first
+// list with the new route list would be observably different from all three tables that ever existed.
+func VerifC18Concurrent() {
+	t := verifNewTable(m20.NoneLegacy, m20.NoneM20, false)
+	mOld, _ := matcher.New("old", "", "", "", "", "")
+	all, _ := matcher.New("", "", "", "", "", "")
+	rOld := &verifCapRoute{key: "rold", m: mOld}
+	rAny := &verifCapRoute{key: "rany", m: all}
+	t.AddRoute(rOld)
+	t.AddRoute(rAny)
+	kind := verifParam("kind")
+	done := make(chan bool, 2)
+	verifPreemptions(verifParamInt("preemptions", 1))
+	go func() {
+		t.Dispatch([]byte("old.x 1 1500000000"))
+		done <- true
+	}()
+	go func() {
+		if kind == "blacklist" {
+			b, _ := matcher.New("old", "", "", "", "", "")
+			t.AddBlacklist(&b)
+		} else {
+			rw, _ := rewriter.New("old", "new", "", -1)
+			t.AddRewriter(rw)
+		}
+		t.DelRoute("rold")
+		done <- true
+	}()
+	<-done
+	<-done
+	verifPreemptions(0)
+	before := verifOneLine(rOld.got, "old.x 1 1500000000") && verifOneLine(rAny.got, "old.x 1 1500000000")
+	var after bool // after the first change, and after both: the same observable outcome
+	if kind == "blacklist" {
+		after = len(rOld.got) == 0 && len(rAny.got) == 0
+	} else {
+		after = len(rOld.got) == 0 && verifOneLine(rAny.got, "new.x 1 1500000000")
+	}
+	verifAssert(before || after, "line-processed-against-one-table-that-existed")
+	// and the table ends up with both changes
+	snap := t.Snapshot()
+	verifAssert(len(snap.Routes) == 1 && len(snap.Rewriters)+len(snap.Blacklist) == 1, "both-changes-applied")
+	verifCover("end")
+}
+
+// VerifC18Writers: two admin connections change the table at the same time (every admin connection is its
+// own goroutine); whatever the interleaving, no change is lost.
+func VerifC18Writers() {
+	t, _ := verifBuildTable(1)
+	keys := verifKeys()
+	all, _ := matcher.New("", "", "", "", "", "")
+	opA, opB := verifChoice("opA", 4), verifChoice("opB", 4)
+	apply := func(op int, tag string) {
+		switch op {
+		case 0:
+			t.AddRoute(&verifCapRoute{key: "new" + tag, m: all})
+		case 1:
+			b, _ := matcher.New("", "", tag, "", "", "")
+			t.AddBlacklist(&b)
+		case 2:
+			rw, _ := rewriter.New(tag, "y", "", -1)
+			t.AddRewriter(rw)
+		case 3:
+			t.DelRoute(keys[0])
+		}
+	}
+	done := make(chan bool, 2)
+	verifPreemptions(verifParamInt("preemptions", 2))
+	go func() { apply(opA, "A"); done <- true }()
+	go func() { apply(opB, "B"); done <- true }()
+	<-done
+	<-done
+	verifPreemptions(0)
+	routes, black, rws := 1, 1, 1
+	for _, op := range []int{opA, opB} {
+		switch op {
+		case 0:
+			routes++
+		case 1:
+			black++
+		case 2:
+			rws++
+		}
+	}
+	if opA == 3 || opB == 3 {
+		routes--
+	}
+	snap := t.Snapshot()
+	verifAssert(len(snap.Routes) == routes && len(snap.Blacklist) == black && len(snap.Rewriters) == rws && len(snap.Aggregators) == 1, "concurrent-admin-changes-both-applied")
+	verifCover("end")
+}
